@@ -581,6 +581,27 @@ func LoopTrip(h *ssa.BasicBlock) (ssa.Value, bool) {
 		if ph, ok := nx.X.(*ssa.Phi); ok && isStep(nx, ph) && counted(ph, -1) {
 			return be.Y, true
 		}
+		// `for i := range n` whose body is one block: the block is header and latch at once — phi [0, next],
+		// next = phi+1, back on `next < B` — and it is entered behind the guard `0 < B`
+		if ph, ok := nx.X.(*ssa.Phi); ok && isStep(nx, ph) && counted(ph, 0) && h.Succs[0] == h {
+			for _, pred := range h.Preds {
+				if pred == h || len(pred.Instrs) == 0 {
+					continue
+				}
+				gi, isIf := pred.Instrs[len(pred.Instrs)-1].(*ssa.If)
+				if !isIf || pred.Succs[0] != h {
+					return nil, false
+				}
+				g, isCmp := gi.Cond.(*ssa.BinOp)
+				if !isCmp || g.Op != token.LSS || g.Y != be.Y {
+					return nil, false
+				}
+				if k, isC := ConstInt(g.X); !isC || k != 0 {
+					return nil, false
+				}
+			}
+			return be.Y, true
+		}
 	}
 	return nil, false
 }
